@@ -53,6 +53,8 @@ pub struct SplayStats {
     pub reference_checks: u64,
     pub iterations: u64,
     pub max_len: u64,
+    /// loop iterations inside the tree (hook counter) in the most expensive history
+    pub max_splay_steps_per_history: u64,
     pub op_counts: BTreeMap<String, u64>,
 }
 impl SplayStats {
@@ -67,13 +69,15 @@ impl SplayStats {
         self.reference_checks += o.reference_checks;
         self.iterations += o.iterations;
         self.max_len = self.max_len.max(o.max_len);
+        self.max_splay_steps_per_history = self.max_splay_steps_per_history.max(o.max_splay_steps_per_history);
         for (k, v) in &o.op_counts {
             *self.op_counts.entry(k.clone()).or_insert(0) += v;
         }
     }
     pub fn to_json(&self) -> serde_json::Value {
         serde_json::json!({"operations": self.ops, "histories": self.histories, "structural_walks": self.structural_walks,
-            "reference_stability_checks": self.reference_checks, "consuming_iterations": self.iterations, "max_len": self.max_len, "per_operation": self.op_counts})
+            "reference_stability_checks": self.reference_checks, "consuming_iterations": self.iterations, "max_len": self.max_len,
+            "max_loop_iterations_inside_the_tree_per_history": self.max_splay_steps_per_history, "per_operation": self.op_counts})
     }
 }
 
@@ -108,9 +112,33 @@ fn check_walk(t: &TTree, m: &BTreeMap<i32, i32>, st: &mut SplayStats) -> Result<
 }
 
 /// One random history in lock-step with BTreeMap. `universe`: keys are drawn from 0..universe.
+/// Arms the step budget of the splay tree's loops (hook H1, `Loop::SplayStep`) for the current thread: a loop of the tree
+/// that stops making progress exceeds it and panics with the distinctive budget message instead of hanging the worker.
+/// The bound is a deliberately generous worst case (every operation may walk the whole tree), not a complexity claim.
+pub fn arm_splay(budget: u64) {
+    geo_booleanop::verif::reset_steps();
+    geo_booleanop::verif::set_budget(geo_booleanop::verif::Loop::SplayStep, budget);
+}
+
+pub fn disarm_splay() {
+    geo_booleanop::verif::set_budget(geo_booleanop::verif::Loop::SplayStep, u64::MAX);
+}
+
+pub fn splay_steps() -> u64 {
+    geo_booleanop::verif::steps(geo_booleanop::verif::Loop::SplayStep)
+}
+
+fn history_budget(steps: usize, universe: i32) -> u64 {
+    let len = (universe as u64 + 8).min(steps as u64 + 16) + 8;
+    64 * len * (steps as u64 + 8) + 8 * len * len
+}
+
 pub fn random_history(rng: &mut Rng, steps: usize, universe: i32, st: &mut SplayStats, log: &mut Vec<String>) -> Result<(), String> {
     let base_live = live();
+    arm_splay(history_budget(steps, universe));
     let res = random_history_inner(rng, steps, universe, st, log);
+    st.max_splay_steps_per_history = st.max_splay_steps_per_history.max(splay_steps());
+    disarm_splay();
     if res.is_ok() && live() != base_live {
         return Err(format!("drop accounting: {} tracked keys/values still alive after the tree was dropped (created - dropped != held)", live() - base_live));
     }
@@ -406,6 +434,14 @@ fn random_history_inner(rng: &mut Rng, steps: usize, universe: i32, st: &mut Spl
 /// Random history on the set wrapper, with `Rc` elements and a comparator on the pointee, the way the
 /// sweep uses it (identity of the Rc matters to the caller, ordering comes from the comparator).
 pub fn random_set_history(rng: &mut Rng, steps: usize, universe: i32, st: &mut SplayStats) -> Result<(), String> {
+    arm_splay(history_budget(steps, universe));
+    let r = random_set_history_inner(rng, steps, universe, st);
+    st.max_splay_steps_per_history = st.max_splay_steps_per_history.max(splay_steps());
+    disarm_splay();
+    r
+}
+
+fn random_set_history_inner(rng: &mut Rng, steps: usize, universe: i32, st: &mut SplayStats) -> Result<(), String> {
     st.histories += 1;
     let pool: Vec<Rc<i32>> = (0..universe).map(Rc::new).collect();
     let mut t = SplaySet::new(|a: &Rc<i32>, b: &Rc<i32>| if Rc::ptr_eq(a, b) { Ordering::Equal } else { a.cmp(b) });
@@ -413,7 +449,34 @@ pub fn random_set_history(rng: &mut Rng, steps: usize, universe: i32, st: &mut S
     for _ in 0..steps {
         let k = rng.below(universe as u64) as i32;
         let key = &pool[k as usize];
-        match rng.below(12) {
+        // clear is rare (it ends a long build-up), extend occasional, the rest as before
+        let sel = rng.below(192);
+        let arm = if sel == 0 {
+            12
+        } else if sel < 12 {
+            13
+        } else {
+            sel % 12
+        };
+        match arm {
+            12 => {
+                st.op("set.clear");
+                t.clear();
+                m.clear();
+                if t.len() != 0 || !t.is_empty() || t.min().is_some() || t.max().is_some() || t.verif_inorder().len() != 0 {
+                    return Err("set is not empty after clear()".into());
+                }
+            }
+            13 => {
+                st.op("set.extend");
+                let n = rng.below(6) as usize;
+                let items: Vec<i32> = (0..n).map(|_| rng.below(universe as u64) as i32).collect();
+                t.extend(items.iter().map(|i| pool[*i as usize].clone()));
+                m.extend(items.iter().cloned());
+                if t.len() != m.len() {
+                    return Err(format!("set len after extend({:?}) is {}, reference {}", items, t.len(), m.len()));
+                }
+            }
             0..=3 => {
                 st.op("set.insert");
                 if t.insert(key.clone()) != m.insert(k) {
@@ -475,6 +538,10 @@ pub fn random_set_history(rng: &mut Rng, steps: usize, universe: i32, st: &mut S
     let mut out = Vec::new();
     let mut back = Vec::new();
     loop {
+        let remaining = m.len() - out.len() - back.len();
+        if it.size_hint() != (remaining, Some(remaining)) {
+            return Err(format!("set iterator size_hint {:?} with {} elements remaining", it.size_hint(), remaining));
+        }
         if rng.below(2) == 0 {
             match it.next() {
                 Some(x) => out.push(*x),
@@ -681,6 +748,8 @@ pub fn exhaustive(k: u8, shard: u64, nshards: u64, with_terminal: bool) -> Resul
         res.max_depth = res.max_depth.max(path.len());
         let mine = index % nshards == shard;
         index += 1;
+        // all replays from this shape: (operations + terminal runs) x (path + a few steps) x (worst case: whole tree per step)
+        arm_splay(64 * (k as u64 + 8) * (path.len() as u64 + k as u64 + 8) * (ops.len() as u64 + 16));
         if mine && with_terminal {
             res.terminal_runs += xterminal(&path).map_err(|e| format!("from the tree reached by {:?}: {}", path, e))?;
         }
@@ -704,6 +773,7 @@ pub fn exhaustive(k: u8, shard: u64, nshards: u64, with_terminal: bool) -> Resul
             }
         }
     }
+    disarm_splay();
     Ok(res)
 }
 
